@@ -70,7 +70,10 @@ def build_text(sc):
         empty = set(tuple(x) for x in sc.get("empty", []))
         for i in range(r):
             lines += noise.get(i, [])
-            if sc.get("comma"):
+            if sc.get("runon"):
+                # fixed-width export whose negative values run into their left neighbour: 1000-1001-1002
+                lines.append("   %d" % (10000 + tag(i, 0)) + "".join("-%d" % (10000 + tag(i, j)) for j in range(1, c)))     # >= 5 digits each
+            elif sc.get("comma"):
                 lines.append(sc.get("lead", " ") + sc["comma"].join("" if (i, j) in empty else fmt % tag(i, j) for j in range(c)))
             else:
                 lines.append(sc.get("lead", " ") + sc.get("sep", " ").join(cell_text(sc, i, j, fmt) for j in range(c)))
@@ -145,7 +148,13 @@ class C07(Prop):
             sc["names"] = ["DEPT"] + tail
         sc["case"] = g.choice(["upper", "upper", "lower", "preserve"])
         sc["nkw"] = neutral_read_kw(g)
-        if not wrap and not sc.get("ragged") and not sc.get("comma") and g.random() < 0.1:
+        if not wrap and not sc.get("ragged") and max(sc["cols"], sc["declared"]) >= 2 and g.random() < 0.08:
+            sc["second"] = {"cols": g.randint(1, max(sc["cols"], sc["declared"]) - 1), "rows": g.choice([1, 2, 3, 5, 25])}
+        if not wrap and not sc.get("ragged") and not sc.get("comma") and sc["cols"] >= 2 and g.random() < 0.08:
+            sc["runon"] = True
+            sc["cellfmt"] = "%d"
+            sc.pop("noise", None)
+        elif not wrap and not sc.get("ragged") and not sc.get("comma") and g.random() < 0.1:
             sc["text_index"] = True          # the index column holds text (time stamps); forces the reference engine
         sc["cellfmt"] = g.choice(["%d", "%d", "%.1f", "%.3f"])
         sc["vers"] = g.choice([1.2, 2.0])
@@ -164,7 +173,8 @@ class C07(Prop):
         fs = SimFS(policy=Policy.from_json(sc["policy"]))
         with fs:
             try:
-                las = read_via(fs, text, sc["channel"], fix_kw(dict(sc.get("nkw") or {}, engine=sc["engine"], mnemonic_case=sc.get("case", "upper"))), tag="c07")
+                las = read_via(fs, text, sc["channel"], fix_kw(dict(sc.get("nkw") or {}, engine=sc["engine"], mnemonic_case=sc.get("case", "upper"),
+                                           **({"accept_regexp_sub_recommendations": False} if sc.get("runon") else {}))), tag="c07")
             except Exception as e:
                 res.count("read-raised:" + type(e).__name__)
                 res.skipped = "read raised %s (the statement speaks of successful reads)" % type(e).__name__
@@ -174,6 +184,39 @@ class C07(Prop):
                     res.violate("C07.unreadable", "rectangular document (d=%d c=%d r=%d wrap=%s) could not be read: %s: %s" % (
                         sc["declared"], sc["cols"], sc["rows"], sc["wrap"], type(e).__name__, str(e).strip().splitlines()[-1][:200] if str(e).strip() else ""))
                 res.events = fs.seq
+                return res
+            if sc.get("second") and not sc.get("ragged"):
+                # the same LASFile object reads a second document that has no ~C section and fewer columns
+                s2 = dict(sc, declared=0, curve_section=False, cols=sc["second"]["cols"], rows=sc["second"]["rows"], noise=[], tail=[],
+                          names=None, empty=[], ragged=None, comma=None, dlm_spelling=None, runon=False, text_index=False, wrap=False)
+                try:
+                    las = read_via(fs, build_text(s2), sc["channel"], fix_kw(dict(engine=sc["engine"], mnemonic_case=sc.get("case", "upper"))),
+                                   tag="c07", into=las)
+                except Exception as e:
+                    res.violate("C07.unreadable", "second read into the same LASFile raised %s: %s" % (type(e).__name__, str(e)[:200]))
+                    return res
+                res.count("second-read-into-same-object")
+                n_before = max(sc["cols"], sc["declared"])
+                c2, r2 = s2["cols"], s2["rows"]
+                curves2 = list(las.curves)
+                lens2 = [len(np.asarray(cv.data)) for cv in curves2]
+                if len(set(lens2)) > 1:
+                    res.violate("C07.rectangular", "after a second read into the same object the curves have lengths %r (first: d=%d c=%d r=%d, "
+                                "second: c=%d r=%d)" % (lens2, sc["declared"], sc["cols"], sc["rows"], c2, r2))
+                    return res
+                for j in range(min(c2, len(curves2))):
+                    a = np.asarray(curves2[j].data)
+                    want = np.array([tag(i, j) for i in range(r2)], dtype=float)
+                    if a.dtype.kind != "f" or not np.array_equal(a, want):
+                        res.violate("C07.binding", "after the second read curve #%d is not column %d of the second document: %r" % (j, j, a.tolist()[:4]))
+                        return res
+                for j in range(c2, len(curves2)):
+                    a = np.asarray(curves2[j].data)
+                    if a.dtype.kind != "f" or not np.all(np.isnan(a)):
+                        res.violate("C07.nan-fill", "after the second read curve #%d (no column in the second document) is not all-NaN: %r" % (j, a.tolist()[:4]))
+                        return res
+                res.events = fs.seq
+                res.nontrivial = True
                 return res
         res.events = fs.seq
         res.merge_counts(fs.counts)
@@ -234,7 +277,9 @@ class C07(Prop):
                     return res
                 continue
             if j < c:
-                want = np.array([tag(i, j) for i in range(r)], dtype=float)
+                sign = -1.0 if (sc.get("runon") and j > 0) else 1.0
+                off = 10000 if sc.get("runon") else 0
+                want = np.array([sign * (off + tag(i, j)) for i in range(r)], dtype=float)
                 if a.dtype.kind != "f" or not np.array_equal(a, want):
                     bad = [i for i in range(r) if not (a.dtype.kind == "f" and a[i] == want[i])][:3]
                     res.violate("C07.binding", "curve #%d is not column %d: rows %r hold %r, expected %r (d=%d c=%d r=%d engine=%s)" % (
@@ -269,7 +314,7 @@ class C07(Prop):
             d = copy.deepcopy(sc)
             d["policy"] = Policy().to_json()
             yield d
-        for k, v in (("text_index", False), ("dlm_spelling", None), ("names", None), ("empty", []), ("case", "upper"), ("no_wrap_item", False), ("params", False), ("title", "~ASCII"), ("final_newline", True), ("cellfmt", "%d"), ("lead", " "), ("sep", " ")):
+        for k, v in (("second", None), ("runon", False), ("text_index", False), ("dlm_spelling", None), ("names", None), ("empty", []), ("case", "upper"), ("no_wrap_item", False), ("params", False), ("title", "~ASCII"), ("final_newline", True), ("cellfmt", "%d"), ("lead", " "), ("sep", " ")):
             if k in sc and sc[k] != v and sc[k]:
                 d = copy.deepcopy(sc)
                 d[k] = v
